@@ -262,7 +262,9 @@ func projHandle(h *keyset.Handle) jHandle {
 	for i := 0; i < h.Len(); i++ {
 		e, err := h.Entry(i)
 		if err != nil {
-			vt.Fatal("handle.Entry(%d) of a handle with Len %d: %v", i, h.Len(), err)
+			// recorded, not judged here: the trace spec rejects the status (Entry(i) must succeed for 0 <= i < Len())
+			es[i] = jEntry{ID: none, Status: "ENTRY-ERROR", Req: none, Mat: "?", URL: "?"}
+			continue
 		}
 		es[i] = projEntry(e)
 	}
@@ -1180,11 +1182,16 @@ func main() {
 	w := &world{w: vt.NewWriter(*out), r: vt.Rng(104)}
 	defer w.w.Close()
 	keyset.VerifDraw = w.draw
-	kh, err := keyset.NewHandle(aead.AES128GCMKeyTemplate())
+	// the key-encryption AEAD of the "encrypted" constructor (built without keyset.NewHandle, which is under test)
+	kp, err := aesgcm.NewParameters(aesgcm.ParametersOpts{KeySizeInBytes: 16, IVSizeInBytes: 12, TagSizeInBytes: 16, Variant: aesgcm.VariantNoPrefix})
 	if err != nil {
-		vt.Fatal("kek handle: %v", err)
+		vt.Fatal("kek params: %v", err)
 	}
-	if w.kek, err = aead.New(kh); err != nil {
+	kk, err := aesgcm.NewKey(secretdata.NewBytesFromData(vt.Bytes(w.r, 16), token), 0, kp)
+	if err != nil {
+		vt.Fatal("kek key: %v", err)
+	}
+	if w.kek, err = aesgcm.NewAEAD(kk); err != nil {
 		vt.Fatal("kek: %v", err)
 	}
 	if *plan != "" {
